@@ -129,6 +129,22 @@ def b64dec (pad : Bool) : Bytes → List Nat → Option Bytes
 def decodeBinHeader (v : Bytes) : Option Bytes :=
   if v.length % 4 == 0 then b64dec true v [] else b64dec false v []
 
+/-! ### encoding/base64 StdEncoding.EncodeToString (padded) -/
+
+def b64char (n : Nat) : UInt8 :=
+  if n < 26 then UInt8.ofNat (65 + n)
+  else if n < 52 then UInt8.ofNat (97 + (n - 26))
+  else if n < 62 then UInt8.ofNat (48 + (n - 52))
+  else if n = 62 then 43 else 47
+
+def encodeStd : Bytes → Bytes
+  | [] => []
+  | [a] => [b64char (a.toNat / 4), b64char (a.toNat % 4 * 16), 61, 61]
+  | [a, b] => [b64char (a.toNat / 4), b64char (a.toNat % 4 * 16 + b.toNat / 16), b64char (b.toNat % 16 * 4), 61]
+  | a :: b :: d :: rest =>
+    b64char (a.toNat / 4) :: b64char (a.toNat % 4 * 16 + b.toNat / 16) ::
+      b64char (b.toNat % 16 * 4 + d.toNat / 64) :: b64char (d.toNat % 64) :: encodeStd rest
+
 /-! ### ProxyMDFilter -/
 
 structure Opts where
@@ -230,6 +246,17 @@ structure Request where
   hdr : MD := []
   qmd : List (Bytes × Bytes) := []
   lines : List (Bytes × Bytes) := []
+  /-- model parameter, proxy entry only: `GRPCProxy.StreamHandler` as it is now (`true`: `wireFormMetadata`
+      re-encodes the `-bin` values grpc-go has already decoded, fix D13) or as it was (`false`) -/
+  normalise : Bool := true
+
+/-- the keys whose values grpc-go delivers decoded: `len(k) >= 4 && EqualFold(k[len(k)-4:], "-bin")` -/
+def grpcBin (k : Bytes) : Bool := k.length ≥ binSuffix.length && equalFold (k.drop (k.length - binSuffix.length)) binSuffix
+
+/-- proxy.go `wireFormMetadata`: a copy of the incoming MD with every value of every `-bin` key
+    `base64.StdEncoding`-encoded — the form the metadata has on the wire and on the HTTP-based entry points -/
+def wireFormMetadata (md : MD) : MD :=
+  md.map (fun e => if grpcBin e.1 then (e.1, e.2.map encodeStd) else e)
 
 /-- the MD put into the incoming context by the entry point -/
 def toCtxMD : Entry → Request → MD
@@ -237,7 +264,7 @@ def toCtxMD : Entry → Request → MD
   | .grpcweb, r => headersToMD r.hdr
   | .ws, r => join (pairsToMD r.qmd) (headersToMD r.hdr)
   | .grpcws, r => mimeHeader r.lines            -- `metadata.MD(mimeHeader)`: a cast
-  | .proxy, r => r.hdr                          -- grpc-go's own incoming MD
+  | .proxy, r => if r.normalise then wireFormMetadata r.hdr else r.hdr   -- grpc-go's own incoming MD (binary values decoded)
 
 def targetMD (e : Entry) (o : Opts) (r : Request) : MD := outgoing o (toCtxMD e r)
 def targetDeadline (e : Entry) (o : Opts) (r : Request) : Option Int := deadline o (toCtxMD e r)
